@@ -204,10 +204,16 @@ void vp_free(char* p) { free(p); }
 #ifndef VP_P3
 #define VP_P3 0
 #endif
+#ifndef VP_P4
+#define VP_P4 0
+#endif
+#ifndef VP_P5
+#define VP_P5 0
+#endif
 #ifdef VP_NATIVE
-uint32_t vp_param(uint32_t i) { static const char* nm[4] = {"VP_P0", "VP_P1", "VP_P2", "VP_P3"}; const char* s = i < 4 ? getenv(nm[i]) : 0; return s ? (uint32_t)strtoul(s, 0, 10) : 0; }
+uint32_t vp_param(uint32_t i) { static const char* nm[6] = {"VP_P0", "VP_P1", "VP_P2", "VP_P3", "VP_P4", "VP_P5"}; const char* s = i < 6 ? getenv(nm[i]) : 0; return s ? (uint32_t)strtoul(s, 0, 10) : 0; }
 #else
-uint32_t vp_param(uint32_t i) { return i == 0 ? VP_P0 : i == 1 ? VP_P1 : i == 2 ? VP_P2 : VP_P3; }
+uint32_t vp_param(uint32_t i) { __CPROVER_assert(i < 6, "vp_param: at most six per-instance parameters"); return i == 0 ? VP_P0 : i == 1 ? VP_P1 : i == 2 ? VP_P2 : i == 3 ? VP_P3 : i == 4 ? VP_P4 : VP_P5; }
 #endif
 
 /* behaviour of contract stubs: a concrete per-instance parameter (P1), so that the pointer a stub returns is a single object or null,
